@@ -304,6 +304,9 @@ class Executor(object):
                 return self._fresh_fn(st, _inner, _name + '[]', tuple(_idx) + (i,), cache)
             # note: len >= 0 for inner sequences is asserted lazily by users through seq_len_nonneg
             return VSeq(length=z3.If(n.t >= 0, n.t, 0), elem=elem, kind='list' if ty.name == 'list' else 'tuple')
+        if k == 'dict':
+            ksort = z3.StringSort() if ty.args[0].kind == 'str' else z3.IntSort()
+            return self.B.new_symdict(self, st, name, ty.args[1], ksort, idx, fcache=cache)
         raise Unsupported('element type %r not supported inside a symbolic sequence' % ty)
 
     def shape_type(self, st, v):
@@ -873,6 +876,10 @@ class Executor(object):
                 return [(st, VFunc('py', fi, selfv=v, name=fi.key))]
             ca = self.db.find_class_attr(ci, attr)
             if ca is not None:
+                prop = self.property_attr(ca)
+                if prop is not None:
+                    getter = self.db.find_method(ci, prop[0])
+                    return self.call_function(st, getter, [v], {}, node, force_inline=True)
                 sub = State()
                 sub.module = ca[0].module
                 sub.spec = True
@@ -885,6 +892,14 @@ class Executor(object):
             raise Unsupported('spec reads undeclared field %s.%s' % (v.cls, attr))
         raise Unsupported('attribute %s.%s is neither a declared field, method nor class attribute (line %s)'
                           % (v.cls, attr, getattr(node, 'lineno', '?')))
+
+    def property_attr(self, ca):
+        """class attribute `name = property(getter[, setter])` -> (getter name, setter name|None)"""
+        expr = ca[1]
+        if isinstance(expr, ast.Call) and isinstance(expr.func, ast.Name) and expr.func.id == 'property' and expr.args \
+                and all(isinstance(a, ast.Name) for a in expr.args):
+            return expr.args[0].id, (expr.args[1].id if len(expr.args) > 1 else None)
+        return None
 
     def ev_Subscript(self, st, node):
         if isinstance(node.slice, ast.Slice):
@@ -1039,7 +1054,7 @@ class Executor(object):
         # spec built-ins that need the unevaluated AST
         if st.spec and isinstance(node.func, ast.Name):
             f = node.func.id
-            if f in ('forall', 'exists'):
+            if f in ('forall', 'exists', 'forall_str'):
                 return [(st, self.spec_quant(st, node, f))]
             if f == 'old':
                 if st.old is None:
@@ -1107,10 +1122,15 @@ class Executor(object):
         if not isinstance(lam, ast.Lambda):
             raise Unsupported('forall/exists needs a lambda')
         names = [a.arg for a in lam.args.args]
-        bvs = [z3.Int(uid('q_' + n)) for n in names]
+        if which == 'forall_str':
+            bvs = [z3.String(uid('q_' + n)) for n in names]
+        else:
+            bvs = [z3.Int(uid('q_' + n)) for n in names]
         sub = st.fork()
         for n, b in zip(names, bvs):
-            sub.env[n] = VInt(b)
+            sub.env[n] = VStr(b) if which == 'forall_str' else VInt(b)
+        if which == 'forall_str':
+            which = 'forall'
         guards = []
         if len(node.args) >= 3 and len(names) == 1:
             lo = self.ev1(st, node.args[1])
@@ -1204,7 +1224,7 @@ class Executor(object):
         decl = self.reg.class_decl(ci.key, self.db)
         init = self.db.find_method(ci, '__init__')
         c = self.reg.contracts.get('%s.__init__' % ci.key)
-        if self.cur_policy(ci.key + '.__init__') == 'opaque' or (decl is None and c is None and
+        if self.cur_policy(ci.key + '.__init__') == 'opaque' or self.cur_policy(ci.key) == 'opaque' or (decl is None and c is None and
                                                               self.cur_policy(ci.key) != 'inline'):
             return self.opaque_call(st, ci.name, None, args, kwargs, node)
         obj = self.new_ref(st, ci.key)
@@ -1726,6 +1746,14 @@ class Executor(object):
                     raise Unsupported('attribute assignment on %r' % (base,))
                 if base.cls.startswith('$'):
                     return self.B.stub_setattr(self, s, base, tgt.attr, v)
+                ci_ = self.class_info(base.cls)
+                if ci_ is not None and tgt.attr not in s.heap[base.ref]:
+                    ca_ = self.db.find_class_attr(ci_, tgt.attr)
+                    prop_ = self.property_attr(ca_) if ca_ is not None else None
+                    if prop_ is not None and prop_[1]:
+                        setter = self.db.find_method(ci_, prop_[1])
+                        outs_ = self.call_function(s, setter, [base, v], {}, None, force_inline=True)
+                        return [(s2_, r_ if isinstance(r_, Raised) else None) for s2_, r_ in outs_]
                 s.heap[base.ref][tgt.attr] = v
                 return [(s, None)]
             return self.bind(self.ev(st, tgt.value), k)
